@@ -221,7 +221,15 @@ func runSession(prof refterm.Profile, opts vaxis.Options, sh shape) {
 		vx.Close()
 	case endSignal:
 		if n := vsignal.Deliver(syscall.SIGTERM); n == 0 {
-			r.Fault("SIGTERM not registered")
+			// nobody listens: the library does not handle the termination signal in this state, the
+			// process would die with the terminal as it is
+			var now map[string]string
+			s.Con.With(func(t *refterm.Terminal) { now = t.ModeTable() })
+			d := diffTables(before, now)
+			d["signal"] = "no handler registered for SIGTERM"
+			report("not-restored|signal-ignored", d, "the termination signal is not handled (no handler registered): the terminal stays as the application left it")
+			vx.Close()
+			return
 		}
 		// the input goroutine runs Close; it ends with console.Close()
 		s.Con.WaitClosed()
